@@ -6,3 +6,4 @@ import JaxVerif.Properties.C08
 #print axioms JV.C08_bare
 #print axioms JV.C08_arrays
 #print axioms JV.C08_reject_binds_nothing
+#print axioms JV.C08_generated_good
